@@ -290,7 +290,11 @@ func vSignals() []*vSignal {
 			return x.PartialSuccess().RejectedProfiles(), x.PartialSuccess().ErrorMessage()
 		},
 	}
-	return []*vSignal{logs, metrics, traces, profiles}
+	sigs := []*vSignal{logs, metrics, traces, profiles}
+	for _, sg := range sigs {
+		vSafeSignal(sg)
+	}
+	return sigs
 }
 
 func vBuildSchema() (*vSchema, []*vSignal, error) {
@@ -324,6 +328,8 @@ func vBuildSchema() (*vSchema, []*vSignal, error) {
 func TestVerifC08Schema(t *testing.T) {
 	out := vOpen()
 	defer out.Close()
+	vCur.out = out
+	defer vHarnessRecover(t)
 	s, sigs, err := vBuildSchema()
 	if err != nil {
 		t.Fatal(err)
@@ -351,11 +357,18 @@ func TestVerifC08Schema(t *testing.T) {
 
 // ---- running implementation code under a deadline, recovering panics ---------------------------
 func vGuard(out *vOut, what, term string, f func()) (ok bool) {
-	done := make(chan interface{}, 1)
+	type res struct {
+		r       interface{}
+		harness bool
+		where   string
+	}
+	done := make(chan *res, 1)
+	vCur.term = term
 	go func() {
 		defer func() {
 			if r := recover(); r != nil {
-				done <- r
+				h, where := vPanicOrigin()
+				done <- &res{r, h, where}
 				return
 			}
 			done <- nil
@@ -364,11 +377,15 @@ func vGuard(out *vOut, what, term string, f func()) (ok bool) {
 	}()
 	select {
 	case r := <-done:
-		if r != nil {
-			out.Oracle("panic", term, fmt.Sprintf("%s panicked: %v", what, r))
+		if r == nil {
+			return true
+		}
+		if r.harness {
+			vHarnessBug(fmt.Sprintf("%s: %v at %s", what, r.r, r.where))
 			return false
 		}
-		return true
+		out.Oracle("panic", term, fmt.Sprintf("%s panicked: %v (at %s)", what, r.r, r.where))
+		return false
 	case <-time.After(20 * time.Second):
 		out.Oracle("hang", term, what+" did not return within 20 s")
 		return false
@@ -477,7 +494,7 @@ func (r *vRun) protoValueCase(m *vMsg, v reflect.Value, marshal func() ([]byte, 
 		}
 	}
 	if pb, ok := back.Addr().Interface().(vPB); ok {
-		b2, err2 := pb.Marshal()
+		b2, err2 := vMarshal(pb)
 		if err2 != nil || !bytes.Equal(b2, b) {
 			r.out.Oracle("proto-remarshal", term, fmt.Sprintf("%s: Marshal(Unmarshal(Marshal(v))) != Marshal(v) (err=%v)", label, err2))
 		}
@@ -512,7 +529,7 @@ func vDiff(a, b *vT) string {
 func vUnmarshalInto(typ reflect.Type) func([]byte) (reflect.Value, error) {
 	return func(b []byte) (reflect.Value, error) {
 		p := reflect.New(typ)
-		err := p.Interface().(vPB).Unmarshal(b)
+		err := vUnmarshal(p.Interface().(vPB), b)
 		return p.Elem(), err
 	}
 }
@@ -520,6 +537,19 @@ func vUnmarshalInto(typ reflect.Type) func([]byte) (reflect.Value, error) {
 func TestVerifC08(t *testing.T) {
 	out := vOpen()
 	defer out.Close()
+	vCur.out = out
+	defer vHarnessRecover(t)
+	defer vFailOnHarnessBugs(t)
+	switch os.Getenv("VERIF_C08_SELFTEST") { // self-test of the panic classification (see NOTES.md)
+	case "harness-panic":
+		var a []int
+		_ = a[3]
+	case "harness-panic-guarded":
+		vGuard(out, "selftest", "mkcase 3 0 (VNone) \"\" 0", func() {
+			var a []int
+			_ = a[3]
+		})
+	}
 	s, sigs, err := vBuildSchema()
 	if err != nil {
 		t.Fatal(err)
@@ -580,7 +610,7 @@ func TestVerifC08(t *testing.T) {
 			o := &vGenOpt{rng: r.rng, budget: 1 + r.rng.Intn(12), quirks: r.rng.Intn(14) == 0, deprecated: r.rng.Intn(3) == 0, hist: r.hist}
 			v := s.gen(o, m, 0)
 			pb := v.Addr().Interface().(vPB)
-			b := r.protoValueCase(m, v, pb.Marshal, pb.Size, vUnmarshalInto(m.typ), "msg")
+			b := r.protoValueCase(m, v, func() ([]byte, error) { return vMarshal(pb) }, func() int { return vSize(pb) }, vUnmarshalInto(m.typ), "msg")
 			if b != nil {
 				pool = append(pool, [2]interface{}{m, b})
 			}
@@ -597,7 +627,7 @@ func TestVerifC08(t *testing.T) {
 			ps := v.Field(0)
 			rej, msg := ps.Field(0).Int(), ps.Field(1).String()
 			api := sg.newResp(rej, msg)
-			b := r.protoValueCase(m, v, api.MarshalProto, func() int { return v.Addr().Interface().(vPB).Size() },
+			b := r.protoValueCase(m, v, api.MarshalProto, func() int { return vSize(v.Addr().Interface().(vPB)) },
 				func(b []byte) (reflect.Value, error) {
 					a2 := sg.newResp(0, "")
 					if err := a2.UnmarshalProto(b); err != nil {
